@@ -114,7 +114,7 @@ def check_sdc(kind, tier, seed, part, nparts):
         elif kind == 'explicit':
             variants = [(explicit, dict(base, QE=q), 'full', q) for q in EXPLICIT]
         else:
-            variants = [(imex_1st_order, dict(base, QI=qi, QE=qe), 'imex', f'{qi}+{qe}') for qi in (['IE', 'LU', 'MIN-SR-S'] if tier == 'quick' else ['IE', 'LU', 'MIN-SR-S', 'MIN-SR-NS', 'Qpar', 'TRAP']) for qe in EXPLICIT]
+            variants = [(imex_1st_order, dict(base, QI=qi, QE=qe), 'imex', f'{qi}+{qe}') for qi in (['IE', 'LU', 'MIN-SR-S', 'PIC'] if tier == 'quick' else ['IE', 'LU', 'MIN-SR-S', 'MIN-SR-NS', 'Qpar', 'TRAP', 'PIC', 'IEpar']) for qe in EXPLICIT]
         for sw, sp, pk, tag in variants:
             for coll_update in (False, True):
                 sp2 = dict(sp, do_coll_update=coll_update)
